@@ -224,7 +224,7 @@ func (c *FnCtx) instr(ins ssa.Instruction) {
 	case *ssa.Select:
 		c.selectStmt(x)
 	case *ssa.Send:
-		c.chanSend(x.Chan, x.X, x.Pos())
+		c.chanSend(x.Chan, x.X, x.Pos(), x)
 	case *ssa.Panic:
 		c.cur.term = func() Term { return "true" }
 	case *ssa.Return:
